@@ -251,6 +251,10 @@ def run(c, facts):
     calls = r2_nondet_sources(c, facts, reach)
     c.floor('C06.R2', 'pipeline call sites scanned', calls, 2000)
     r3_no_globals(c, facts)
+    import c13 as _c13
+    R4 = c.rule('C06.R4', 'NO-RESIDUE: the bytes of the target are those of this run alone: it is written whole, at one site, over a truncated file, unchanged - nothing of what an earlier run left on disk survives (shared with C13.R1, C13.R15)')
+    c.shared(R4, _c13.r1_sole_writer, 'C13.R1', facts)
+    c.shared(R4, _c13.r15_write_verbatim, 'C13.R15', facts)
     # the HashMap-typed data that the pipeline holds: listed so a reviewer sees what R1 protects
     holders = set()
     for fid in reach:
